@@ -125,30 +125,42 @@ Proof. unfold eids. rewrite in_map_iff. intros [x [E H]]. eauto. Qed.
 (** * The relation is preserved by every primitive of the model *)
 
 Section Prims.
+Variables X X' : list Z.
 Variables bs bt : logs.
 
-Lemma dom_pend s x : In x (pend s) -> In (ev_id x) (dom s).
-Proof. intros H. unfold dom. apply in_or_app. left. apply in_eids; auto. Qed.
+Lemma dom_pend s x : In x (pend s) -> In (ev_id x) (domx X s).
+Proof. intros H. unfold domx, dom. apply in_or_app. left. apply in_or_app. left. apply in_eids; auto. Qed.
 
-Lemma dom_created s x : In x (created s) -> In (ev_id x) (dom s).
-Proof. intros H. unfold dom. apply in_or_app. right. apply in_eids; auto. Qed.
+Lemma dom_created s x : In x (created s) -> In (ev_id x) (domx X s).
+Proof. intros H. unfold domx, dom. apply in_or_app. left. apply in_or_app. right. apply in_eids; auto. Qed.
+
+Lemma dom_x s a : In a X -> In a (domx X s).
+Proof. intros H. unfold domx. apply in_or_app. right. exact H. Qed.
+
+Lemma domx_cases s a : In a (domx X s) -> In a (dom s) \/ In a X.
+Proof. unfold domx. apply in_app_or. Qed.
+
+Lemma domx_mono s s' : (forall a, In a (dom s') -> In a (dom s)) -> forall a, In a (domx X s') -> In a (domx X s).
+Proof.
+  intros H a Ha. unfold domx in *. apply in_app_or in Ha. apply in_or_app. destruct Ha; auto.
+Qed.
 
 Lemma CoreSim_ordpres f s t a b :
-  CoreSim f s t -> In a (dom s) -> In b (dom s) -> OrdPres f a b.
-Proof. intros C Ha Hb. split; intros; apply (cs_mono _ _ _ C); auto. Qed.
+  CoreSim X X' f s t -> In a (domx X s) -> In b (domx X s) -> OrdPres f a b.
+Proof. intros C Ha Hb. split; intros; apply (cs_mono _ _ _ _ _ C); auto. Qed.
 
 (* an operation that changes neither the comparable events, the counter, nor the
    scalar fields in the relation *)
 Lemma CoreSim_same f s t s' t' :
-  CoreSim f s t ->
+  CoreSim X X' f s t ->
   clock s' = clock s -> clock t' = clock t -> rs t' = rs s' -> ps t' = ps s' ->
   strat s' = strat s -> strat t' = strat t -> worker t' = worker s' -> rep t' = rep s' ->
   pend s' = pend s -> pend t' = pend t -> created s' = created s -> created t' = created t ->
   nid s' = nid s -> nid t' = nid t ->
-  CoreSim f s' t'.
+  CoreSim X X' f s' t'.
 Proof.
-  intros [A1 A2 A3 A4 A5 A6 A7 A8 Lo Hi Mo] Hc Hc' Hr Hp Hs Hs' Hw Hre Pp Pp' Pc Pc' Pn Pn'.
-  constructor; unfold dom in *; try congruence.
+  intros [A1 A2 A3 A4 A5 A6 A7 A8 Ax Lo Hi Mo] Hc Hc' Hr Hp Hs Hs' Hw Hre Pp Pp' Pc Pc' Pn Pn'.
+  constructor; unfold domx, dom in *; try congruence.
   - intros a. rewrite Pp, Pc, Pn. auto.
   - intros a. rewrite Pp, Pc, Pn'. auto.
   - intros a b. rewrite Pp, Pc. auto.
@@ -156,15 +168,16 @@ Qed.
 
 (* shrinking the set of comparable events *)
 Lemma CoreSim_shrink f s t s' t' :
-  CoreSim f s t ->
+  CoreSim X X' f s t ->
   clock t' = clock s' -> rs t' = rs s' -> ps t' = ps s' -> strat t' = strat s' ->
   worker t' = worker s' -> rep t' = rep s' ->
   pend t' = map (ren f) (pend s') -> created t' = map (ren f) (created s') ->
   (forall a, In a (dom s') -> In a (dom s)) ->
   nid s <= nid s' -> nid t <= nid t' ->
-  CoreSim f s' t'.
+  CoreSim X X' f s' t'.
 Proof.
-  intros [A1 A2 A3 A4 A5 A6 A7 A8 Lo Hi Mo] Hc Hr Hp Hs Hw Hre Pp Pc Hd Hn Hn'. constructor; auto.
+  intros [A1 A2 A3 A4 A5 A6 A7 A8 Ax Lo Hi Mo] Hc Hr Hp Hs Hw Hre Pp Pc Hd0 Hn Hn'.
+  pose proof (domx_mono s s' Hd0) as Hd. constructor; auto.
   - intros a Ha. specialize (Lo a (Hd a Ha)). lia.
   - intros a Ha. specialize (Hi a (Hd a Ha)). lia.
 Qed.
@@ -179,54 +192,54 @@ Lemma ext_old f a b x : x <> a -> ext f a b x = f x.
 Proof. unfold ext. intros H. destruct (Z.eqb_spec x a); [contradiction|reflexivity]. Qed.
 
 Lemma ext_map f s t l :
-  CoreSim f s t -> (forall x, In x l -> In (ev_id x) (dom s)) ->
+  CoreSim X X' f s t -> (forall x, In x l -> In (ev_id x) (domx X s)) ->
   map (ren (ext f (nid s) (nid t))) l = map (ren f) l.
 Proof.
   intros C H. apply map_ren_ext. intros x Hx. apply ext_old.
-  pose proof (cs_lo _ _ _ C _ (H x Hx)). lia.
+  pose proof (cs_lo _ _ _ _ _ C _ (H x Hx)). lia.
 Qed.
 
 Lemma ext_ordpres f s t a :
-  CoreSim f s t -> In a (dom s) -> OrdPres (ext f (nid s) (nid t)) (nid s) a.
+  CoreSim X X' f s t -> In a (domx X s) -> OrdPres (ext f (nid s) (nid t)) (nid s) a.
 Proof.
-  intros C Ha. pose proof (cs_lo _ _ _ C _ Ha). pose proof (cs_hi _ _ _ C _ Ha).
+  intros C Ha. pose proof (cs_lo _ _ _ _ _ C _ Ha). pose proof (cs_hi _ _ _ _ _ C _ Ha).
   split; intros; rewrite ext_new, ext_old by lia; lia.
 Qed.
 
 Lemma ext_mono f s t a b :
-  CoreSim f s t -> (a = nid s \/ In a (dom s)) -> (b = nid s \/ In b (dom s)) -> a < b ->
+  CoreSim X X' f s t -> (a = nid s \/ In a (domx X s)) -> (b = nid s \/ In b (domx X s)) -> a < b ->
   ext f (nid s) (nid t) a < ext f (nid s) (nid t) b.
 Proof.
   intros C Ha Hb L.
   destruct Ha as [->|Ha], Hb as [->|Hb].
   - lia.
-  - pose proof (cs_lo _ _ _ C _ Hb). lia.
-  - pose proof (cs_lo _ _ _ C _ Ha). pose proof (cs_hi _ _ _ C _ Ha).
+  - pose proof (cs_lo _ _ _ _ _ C _ Hb). lia.
+  - pose proof (cs_lo _ _ _ _ _ C _ Ha). pose proof (cs_hi _ _ _ _ _ C _ Ha).
     rewrite ext_new, ext_old by lia. lia.
-  - pose proof (cs_lo _ _ _ C _ Ha). pose proof (cs_lo _ _ _ C _ Hb).
-    rewrite !ext_old by lia. apply (cs_mono _ _ _ C); auto.
+  - pose proof (cs_lo _ _ _ _ _ C _ Ha). pose proof (cs_lo _ _ _ _ _ C _ Hb).
+    rewrite !ext_old by lia. apply (cs_mono _ _ _ _ _ C); auto.
 Qed.
 
 (* inserting a fresh event (id = the counter) into the pending set, with or
    without recording it among the created ones *)
 Lemma CoreSim_insert f s t tm prio h k (rec : bool) :
-  CoreSim f s t ->
+  CoreSim X X' f s t ->
   let e := mkEv tm prio (nid s) h k in
   let e' := mkEv tm prio (nid t) h k in
   let upd := fun (e : ev) (s : sim) =>
     let s1 := set_nid (nid s + 1) (set_pend (ins e (pend s)) s) in
     if rec then set_created (created s ++ [e]) s1 else s1 in
-  CoreSim (ext f (nid s) (nid t)) (upd e s) (upd e' t).
+  CoreSim X X' (ext f (nid s) (nid t)) (upd e s) (upd e' t).
 Proof.
   intros C e e' upd. set (g := ext f (nid s) (nid t)).
   assert (Ee : e' = ren g e). { unfold e', e, ren; cbn. unfold g. rewrite ext_new. reflexivity. }
   assert (Ep : ins e' (pend t) = map (ren g) (ins e (pend s))).
-  { rewrite Ee, (cs_pend _ _ _ C), <- (ext_map f s t (pend s) C) by (intros; apply dom_pend; auto).
+  { rewrite Ee, (cs_pend _ _ _ _ _ C), <- (ext_map f s t (pend s) C) by (intros; apply dom_pend; auto).
     fold g. apply ins_ren. intros x Hx. cbn [ev_id e]. apply ext_ordpres; auto. apply dom_pend; auto. }
   assert (Ec : created t = map (ren g) (created s)).
-  { rewrite (cs_created _ _ _ C), <- (ext_map f s t (created s) C) by (intros; apply dom_created; auto).
+  { rewrite (cs_created _ _ _ _ _ C), <- (ext_map f s t (created s) C) by (intros; apply dom_created; auto).
     reflexivity. }
-  assert (D : forall a, In a (dom (upd e s)) -> a = nid s \/ In a (dom s)).
+  assert (D0 : forall a, In a (dom (upd e s)) -> a = nid s \/ In a (dom s)).
   { intros a Ha. unfold upd, dom in *. destruct rec; ssimpl.
     - rewrite in_app_iff in Ha. destruct Ha as [Ha|Ha].
       + apply in_eids_inv in Ha. destruct Ha as [x [Hx <-]]. apply ins_In in Hx.
@@ -238,23 +251,31 @@ Proof.
       + apply in_eids_inv in Ha. destruct Ha as [x [Hx <-]]. apply ins_In in Hx.
         destruct Hx as [->|Hx]; [left; reflexivity|right]. apply in_or_app; left; apply in_eids; auto.
       + right. apply in_or_app; right; auto. }
+  assert (D : forall a, In a (domx X (upd e s)) -> a = nid s \/ In a (domx X s)).
+  { intros a Ha. apply domx_cases in Ha. destruct Ha as [Ha|Ha].
+    - destruct (D0 a Ha) as [->|H]; [left; reflexivity|right]. unfold domx. apply in_or_app; left; exact H.
+    - right. apply dom_x; exact Ha. }
+  assert (Ex : map g X = X').
+  { rewrite <- (cs_x _ _ _ _ _ C). apply map_ext_in. intros a Ha. unfold g. apply ext_old.
+    pose proof (cs_lo _ _ _ _ _ C _ (dom_x s a Ha)). lia. }
   assert (N1 : nid (upd e s) = nid s + 1) by (unfold upd; destruct rec; reflexivity).
   assert (N2 : nid (upd e' t) = nid t + 1) by (unfold upd; destruct rec; reflexivity).
   constructor.
-  - unfold upd; destruct rec; ssimpl; apply (cs_clock _ _ _ C).
-  - unfold upd; destruct rec; ssimpl; apply (cs_rs _ _ _ C).
-  - unfold upd; destruct rec; ssimpl; apply (cs_ps _ _ _ C).
-  - unfold upd; destruct rec; ssimpl; apply (cs_strat _ _ _ C).
-  - unfold upd; destruct rec; ssimpl; apply (cs_worker _ _ _ C).
-  - unfold upd; destruct rec; ssimpl; apply (cs_rep _ _ _ C).
+  - unfold upd; destruct rec; ssimpl; apply (cs_clock _ _ _ _ _ C).
+  - unfold upd; destruct rec; ssimpl; apply (cs_rs _ _ _ _ _ C).
+  - unfold upd; destruct rec; ssimpl; apply (cs_ps _ _ _ _ _ C).
+  - unfold upd; destruct rec; ssimpl; apply (cs_strat _ _ _ _ _ C).
+  - unfold upd; destruct rec; ssimpl; apply (cs_worker _ _ _ _ _ C).
+  - unfold upd; destruct rec; ssimpl; apply (cs_rep _ _ _ _ _ C).
   - unfold upd; destruct rec; ssimpl; exact Ep.
   - unfold upd; destruct rec; ssimpl; [|exact Ec].
     rewrite map_app, Ec, Ee. reflexivity.
+  - exact Ex.
   - intros a Ha. rewrite N1. destruct (D a Ha) as [->|H]; [lia|].
-    pose proof (cs_lo _ _ _ C _ H). lia.
+    pose proof (cs_lo _ _ _ _ _ C _ H). lia.
   - intros a Ha. rewrite N2. destruct (D a Ha) as [->|H].
     + unfold g. rewrite ext_new. lia.
-    + pose proof (cs_lo _ _ _ C _ H). pose proof (cs_hi _ _ _ C _ H).
+    + pose proof (cs_lo _ _ _ _ _ C _ H). pose proof (cs_hi _ _ _ _ _ C _ H).
       unfold g. rewrite ext_old by lia. lia.
   - intros a b Ha Hb L. apply ext_mono; auto.
 Qed.
@@ -265,39 +286,39 @@ Lemma logs_of_core s s' :
 Proof. unfold logs_of, etrace, ecanc. intros -> -> -> -> -> ->. reflexivity. Qed.
 
 Lemma add_event_idsim s t tm prio h :
-  IdSim bs bt s t -> IdSim bs bt (add_event tm prio (HUser h) s) (add_event tm prio (HUser h) t).
+  IdSimX X X' bs bt s t -> IdSimX X X' bs bt (add_event tm prio (HUser h) s) (add_event tm prio (HUser h) t).
 Proof.
   intros [[f C] L]. split.
   - exists (ext f (nid s) (nid t)).
     pose proof (CoreSim_insert f s t tm prio (HUser h) (length (created s)) true C) as H.
     cbv zeta in H. unfold add_event.
     replace (length (created t)) with (length (created s))
-      by (rewrite (cs_created _ _ _ C), map_length; reflexivity).
+      by (rewrite (cs_created _ _ _ _ _ C), map_length; reflexivity).
     exact H.
   - eapply LogsRel_same; eauto.
 Qed.
 
-Lemma sched_time_sim f s t m : CoreSim f s t -> sched_time t m = sched_time s m.
-Proof. intros C. apply sched_time_clock. apply (cs_clock _ _ _ C). Qed.
+Lemma sched_time_sim f s t m : CoreSim X X' f s t -> sched_time t m = sched_time s m.
+Proof. intros C. apply sched_time_clock. apply (cs_clock _ _ _ _ _ C). Qed.
 
 Ltac core_same C := eapply CoreSim_same; [exact C|..]; ssimpl; auto;
-  try apply (cs_rs _ _ _ C); try apply (cs_ps _ _ _ C); try apply (cs_worker _ _ _ C); try apply (cs_rep _ _ _ C).
+  try apply (cs_rs _ _ _ _ _ C); try apply (cs_ps _ _ _ _ _ C); try apply (cs_worker _ _ _ _ _ C); try apply (cs_rep _ _ _ _ _ C).
 
-Lemma out_idsim s t o : IdSim bs bt s t -> IdSim bs bt (out o s) (out o t).
+Lemma out_idsim s t o : IdSimX X X' bs bt s t -> IdSimX X X' bs bt (out o s) (out o t).
 Proof.
   intros [[f C] L]. split.
   - exists f. core_same C.
   - eapply (LogsRel_push _ _ _ _ _ _ (LOu o)); eauto.
 Qed.
 
-Lemma emit_idsim s t n : IdSim bs bt s t -> IdSim bs bt (emit n s) (emit n t).
+Lemma emit_idsim s t n : IdSimX X X' bs bt s t -> IdSimX X X' bs bt (emit n s) (emit n t).
 Proof.
   intros [[f C] L]. split.
   - exists f. core_same C.
   - eapply (LogsRel_push _ _ _ _ _ _ (LNt n)); eauto.
 Qed.
 
-Lemma raise_flag_idsim s t : IdSim bs bt s t -> IdSim bs bt (raise_flag s) (raise_flag t).
+Lemma raise_flag_idsim s t : IdSimX X X' bs bt s t -> IdSimX X X' bs bt (raise_flag s) (raise_flag t).
 Proof.
   intros [[f C] L]. split.
   - exists f. core_same C.
@@ -305,56 +326,56 @@ Proof.
 Qed.
 
 Lemma set_obs_idsim s t o :
-  IdSim bs bt s t -> IdSim bs bt (set_obs (o :: obs s) s) (set_obs (o :: obs t) t).
+  IdSimX X X' bs bt s t -> IdSimX X X' bs bt (set_obs (o :: obs s) s) (set_obs (o :: obs t) t).
 Proof.
   intros [[f C] L]. split.
   - exists f. core_same C.
   - eapply (LogsRel_push _ _ _ _ _ _ (LOb o)); eauto.
 Qed.
 
-Lemma set_rs_idsim s t v : IdSim bs bt s t -> IdSim bs bt (set_rs v s) (set_rs v t).
+Lemma set_rs_idsim s t v : IdSimX X X' bs bt s t -> IdSimX X X' bs bt (set_rs v s) (set_rs v t).
 Proof.
   intros [[f C] L]. split.
   - exists f. core_same C.
   - eapply LogsRel_same; eauto.
 Qed.
 
-Lemma set_ps_idsim s t v : IdSim bs bt s t -> IdSim bs bt (set_ps v s) (set_ps v t).
+Lemma set_ps_idsim s t v : IdSimX X X' bs bt s t -> IdSimX X X' bs bt (set_ps v s) (set_ps v t).
 Proof.
   intros [[f C] L]. split.
   - exists f. core_same C.
   - eapply LogsRel_same; eauto.
 Qed.
 
-Lemma set_worker_idsim s t v : IdSim bs bt s t -> IdSim bs bt (set_worker v s) (set_worker v t).
+Lemma set_worker_idsim s t v : IdSimX X X' bs bt s t -> IdSimX X X' bs bt (set_worker v s) (set_worker v t).
 Proof.
   intros [[f C] L]. split.
   - exists f. core_same C.
   - eapply LogsRel_same; eauto.
 Qed.
 
-Lemma set_clock_idsim s t v : IdSim bs bt s t -> IdSim bs bt (set_clock v s) (set_clock v t).
+Lemma set_clock_idsim s t v : IdSimX X X' bs bt s t -> IdSimX X X' bs bt (set_clock v s) (set_clock v t).
 Proof.
   intros [[f C] L]. split.
   - exists f. destruct C. constructor; ssimpl; auto.
   - eapply LogsRel_same; eauto.
 Qed.
 
-Lemma set_rep_idsim s t v : IdSim bs bt s t -> IdSim bs bt (set_rep v s) (set_rep v t).
+Lemma set_rep_idsim s t v : IdSimX X X' bs bt s t -> IdSimX X X' bs bt (set_rep v s) (set_rep v t).
 Proof.
   intros [[f C] L]. split.
   - exists f. destruct C. constructor; ssimpl; auto.
   - eapply LogsRel_same; eauto.
 Qed.
 
-Lemma set_bound_idsim s t v w : IdSim bs bt s t -> IdSim bs bt (set_bound v s) (set_bound w t).
+Lemma set_bound_idsim s t v w : IdSimX X X' bs bt s t -> IdSimX X X' bs bt (set_bound v s) (set_bound w t).
 Proof.
   intros [[f C] L]. split.
   - exists f. core_same C.
   - eapply LogsRel_same; eauto.
 Qed.
 
-Lemma set_incl_idsim s t v w : IdSim bs bt s t -> IdSim bs bt (set_incl v s) (set_incl w t).
+Lemma set_incl_idsim s t v w : IdSimX X X' bs bt s t -> IdSimX X X' bs bt (set_incl v s) (set_incl w t).
 Proof.
   intros [[f C] L]. split.
   - exists f. core_same C.
@@ -362,27 +383,27 @@ Proof.
 Qed.
 
 (* facts shared by related states *)
-Lemma idsim_clock s t : IdSim bs bt s t -> clock t = clock s.
-Proof. intros [[f C] _]. apply (cs_clock _ _ _ C). Qed.
-Lemma idsim_rs s t : IdSim bs bt s t -> rs t = rs s.
-Proof. intros [[f C] _]. apply (cs_rs _ _ _ C). Qed.
-Lemma idsim_ps s t : IdSim bs bt s t -> ps t = ps s.
-Proof. intros [[f C] _]. apply (cs_ps _ _ _ C). Qed.
-Lemma idsim_strat s t : IdSim bs bt s t -> strat t = strat s.
-Proof. intros [[f C] _]. apply (cs_strat _ _ _ C). Qed.
-Lemma idsim_worker s t : IdSim bs bt s t -> worker t = worker s.
-Proof. intros [[f C] _]. apply (cs_worker _ _ _ C). Qed.
-Lemma idsim_rep s t : IdSim bs bt s t -> rep t = rep s.
-Proof. intros [[f C] _]. apply (cs_rep _ _ _ C). Qed.
-Lemma idsim_running s t : IdSim bs bt s t -> running t = running s.
+Lemma idsim_clock s t : IdSimX X X' bs bt s t -> clock t = clock s.
+Proof. intros [[f C] _]. apply (cs_clock _ _ _ _ _ C). Qed.
+Lemma idsim_rs s t : IdSimX X X' bs bt s t -> rs t = rs s.
+Proof. intros [[f C] _]. apply (cs_rs _ _ _ _ _ C). Qed.
+Lemma idsim_ps s t : IdSimX X X' bs bt s t -> ps t = ps s.
+Proof. intros [[f C] _]. apply (cs_ps _ _ _ _ _ C). Qed.
+Lemma idsim_strat s t : IdSimX X X' bs bt s t -> strat t = strat s.
+Proof. intros [[f C] _]. apply (cs_strat _ _ _ _ _ C). Qed.
+Lemma idsim_worker s t : IdSimX X X' bs bt s t -> worker t = worker s.
+Proof. intros [[f C] _]. apply (cs_worker _ _ _ _ _ C). Qed.
+Lemma idsim_rep s t : IdSimX X X' bs bt s t -> rep t = rep s.
+Proof. intros [[f C] _]. apply (cs_rep _ _ _ _ _ C). Qed.
+Lemma idsim_running s t : IdSimX X X' bs bt s t -> running t = running s.
 Proof. intros H. unfold running. rewrite (idsim_rs _ _ H). reflexivity. Qed.
-Lemma idsim_end_time s t : IdSim bs bt s t -> end_time t = end_time s.
+Lemma idsim_end_time s t : IdSimX X X' bs bt s t -> end_time t = end_time s.
 Proof. intros H. unfold end_time. rewrite (idsim_rep _ _ H). reflexivity. Qed.
-Lemma idsim_npend s t : IdSim bs bt s t -> length (pend t) = length (pend s).
-Proof. intros [[f C] _]. rewrite (cs_pend _ _ _ C), map_length. reflexivity. Qed.
+Lemma idsim_npend s t : IdSimX X X' bs bt s t -> length (pend t) = length (pend s).
+Proof. intros [[f C] _]. rewrite (cs_pend _ _ _ _ _ C), map_length. reflexivity. Qed.
 
 Lemma do_sched_idsim s t m prio h :
-  IdSim bs bt s t -> IdSim bs bt (do_sched s m prio h) (do_sched t m prio h).
+  IdSimX X X' bs bt s t -> IdSimX X X' bs bt (do_sched s m prio h) (do_sched t m prio h).
 Proof.
   intros H. unfold do_sched.
   destruct H as [[f C] L]. rewrite (sched_time_sim f s t m C).
@@ -392,28 +413,28 @@ Proof.
 Qed.
 
 Lemma do_cancel_idsim s t k :
-  IdSim bs bt s t -> IdSim bs bt (do_cancel s k) (do_cancel t k).
+  IdSimX X X' bs bt s t -> IdSimX X X' bs bt (do_cancel s k) (do_cancel t k).
 Proof.
   intros [[f C] L]. unfold do_cancel.
-  rewrite (cs_created _ _ _ C), nth_error_map.
+  rewrite (cs_created _ _ _ _ _ C), nth_error_map.
   destruct (nth_error (created s) k) as [e|] eqn:E; cbn [option_map]; [|split; eauto].
-  assert (He : In (ev_id e) (dom s)) by (apply dom_created; eapply nth_error_In; eauto).
+  assert (He : In (ev_id e) (domx X s)) by (apply dom_created; eapply nth_error_In; eauto).
   assert (O : forall x, In x (pend s) -> OrdPres f (ev_id e) (ev_id x)).
   { intros x Hx. eapply CoreSim_ordpres; eauto. apply dom_pend; auto. }
-  rewrite (cs_pend _ _ _ C), ev_mem_ren by exact O.
+  rewrite (cs_pend _ _ _ _ _ C), ev_mem_ren by exact O.
   destruct (ev_mem e (pend s)); [|split; eauto].
   rewrite rem_ren by exact O. split.
   - exists f. eapply CoreSim_shrink; [exact C|..]; ssimpl; try lia;
-      try (apply (cs_clock _ _ _ C) || apply (cs_rs _ _ _ C) || apply (cs_ps _ _ _ C)
-           || apply (cs_strat _ _ _ C) || apply (cs_worker _ _ _ C) || apply (cs_rep _ _ _ C)); auto.
-    + apply (cs_created _ _ _ C).
+      try (apply (cs_clock _ _ _ _ _ C) || apply (cs_rs _ _ _ _ _ C) || apply (cs_ps _ _ _ _ _ C)
+           || apply (cs_strat _ _ _ _ _ C) || apply (cs_worker _ _ _ _ _ C) || apply (cs_rep _ _ _ _ _ C)); auto.
+    + apply (cs_created _ _ _ _ _ C).
     + intros a. unfold dom; ssimpl. rewrite !in_app_iff. intros [Ha|Ha]; [left|right; auto].
       apply in_eids_inv in Ha. destruct Ha as [x [Hx <-]]. apply in_eids. eapply rem_incl; eauto.
   - eapply (LogsRel_push _ _ _ _ _ _ (LCn (er e))); eauto.
 Qed.
 
 Lemma inner_cmd_idsim md s t c :
-  IdSim bs bt s t -> IdSim bs bt (inner_cmd md s c) (inner_cmd md t c).
+  IdSimX X X' bs bt s t -> IdSimX X X' bs bt (inner_cmd md s c) (inner_cmd md t c).
 Proof.
   intros H. unfold inner_cmd. rewrite (idsim_running _ _ H).
   destruct md; try (apply raise_flag_idsim; auto; fail);
@@ -422,8 +443,8 @@ Proof.
 Qed.
 
 Lemma exec_action_idsim md s t a :
-  IdSim bs bt s t ->
-  IdSim bs bt (fst (exec_action md s a)) (fst (exec_action md t a))
+  IdSimX X X' bs bt s t ->
+  IdSimX X X' bs bt (fst (exec_action md s a)) (fst (exec_action md t a))
   /\ snd (exec_action md t a) = snd (exec_action md s a).
 Proof.
   intros H. destruct a; cbn [exec_action fst snd]; split; auto
@@ -432,8 +453,8 @@ Proof.
 Qed.
 
 Lemma exec_actions_idsim md acts : forall s t,
-  IdSim bs bt s t ->
-  IdSim bs bt (fst (exec_actions md s acts)) (fst (exec_actions md t acts))
+  IdSimX X X' bs bt s t ->
+  IdSimX X X' bs bt (fst (exec_actions md s acts)) (fst (exec_actions md t acts))
   /\ snd (exec_actions md t acts) = snd (exec_actions md s acts).
 Proof.
   induction acts as [|a r IH]; intros s t H; cbn [exec_actions]; [split; auto|].
@@ -443,18 +464,18 @@ Proof.
 Qed.
 
 Lemma set_trace_idsim s t e f :
-  CoreSim f s t -> LogsRel bs bt s t -> In e (pend s) \/ True ->
-  IdSim bs bt (set_trace ((e, clock s) :: trace s) s) (set_trace ((ren f e, clock t) :: trace t) t).
+  CoreSim X X' f s t -> LogsRel bs bt s t -> In e (pend s) \/ True ->
+  IdSimX X X' bs bt (set_trace ((e, clock s) :: trace s) s) (set_trace ((ren f e, clock t) :: trace t) t).
 Proof.
   intros C L _. split.
   - exists f. core_same C.
   - eapply (LogsRel_push _ _ _ _ _ _ (LTr (er e, clock s))); eauto.
-    unfold logs_of, etrace; ssimpl. cbn [map fst snd]. rewrite er_ren, (cs_clock _ _ _ C). reflexivity.
+    unfold logs_of, etrace; ssimpl. cbn [map fst snd]. rewrite er_ren, (cs_clock _ _ _ _ _ C). reflexivity.
 Qed.
 
 Lemma exec_event_idsim md p s t e f :
-  CoreSim f s t -> LogsRel bs bt s t ->
-  IdSim bs bt (fst (exec_event md p s e)) (fst (exec_event md p t (ren f e)))
+  CoreSim X X' f s t -> LogsRel bs bt s t ->
+  IdSimX X X' bs bt (fst (exec_event md p s e)) (fst (exec_event md p t (ren f e)))
   /\ snd (exec_event md p t (ren f e)) = snd (exec_event md p s e).
 Proof.
   intros C L. unfold exec_event. cbn [ev_h ren].
@@ -464,7 +485,7 @@ Proof.
     set (s1 := set_trace ((e, clock s) :: trace s) s) in *.
     set (t1 := set_trace ((ren f e, clock t) :: trace t) t) in *.
     rewrite (idsim_clock _ _ H).
-    assert (H1 : IdSim bs bt (emit (NWarmup (clock s1)) s1) (emit (NWarmup (clock s1)) t1))
+    assert (H1 : IdSimX X X' bs bt (emit (NWarmup (clock s1)) s1) (emit (NWarmup (clock s1)) t1))
       by auto using emit_idsim.
     exact (set_obs_idsim _ _ (ObsWarm (clock s1)) H1).
   - apply exec_actions_idsim. exact H.
@@ -472,35 +493,35 @@ Qed.
 
 (* removing the first pending event *)
 Lemma pop_coresim f s t e r :
-  CoreSim f s t -> pend s = e :: r ->
-  pend t = ren f e :: map (ren f) r /\ CoreSim f (set_pend r s) (set_pend (map (ren f) r) t).
+  CoreSim X X' f s t -> pend s = e :: r ->
+  pend t = ren f e :: map (ren f) r /\ CoreSim X X' f (set_pend r s) (set_pend (map (ren f) r) t).
 Proof.
-  intros C E. split; [rewrite (cs_pend _ _ _ C), E; reflexivity|].
+  intros C E. split; [rewrite (cs_pend _ _ _ _ _ C), E; reflexivity|].
   eapply CoreSim_shrink; [exact C|..]; ssimpl; try lia;
-    try (apply (cs_clock _ _ _ C) || apply (cs_rs _ _ _ C) || apply (cs_ps _ _ _ C)
-         || apply (cs_strat _ _ _ C) || apply (cs_worker _ _ _ C) || apply (cs_rep _ _ _ C)); auto.
-  - apply (cs_created _ _ _ C).
+    try (apply (cs_clock _ _ _ _ _ C) || apply (cs_rs _ _ _ _ _ C) || apply (cs_ps _ _ _ _ _ C)
+         || apply (cs_strat _ _ _ _ _ C) || apply (cs_worker _ _ _ _ _ C) || apply (cs_rep _ _ _ _ _ C)); auto.
+  - apply (cs_created _ _ _ _ _ C).
   - intros a. unfold dom; ssimpl. rewrite E. cbn [eids map]. rewrite !in_app_iff. intros [Ha|Ha]; auto.
     left. right. exact Ha.
 Qed.
 
 Lemma take_event_idsim p s t e r f :
-  CoreSim f s t -> LogsRel bs bt s t -> pend s = e :: r ->
-  IdSim bs bt (take_event p s e r) (take_event p t (ren f e) (map (ren f) r)).
+  CoreSim X X' f s t -> LogsRel bs bt s t -> pend s = e :: r ->
+  IdSimX X X' bs bt (take_event p s e r) (take_event p t (ren f e) (map (ren f) r)).
 Proof.
   intros C L E. destruct (pop_coresim f s t e r C E) as [_ C0].
   unfold take_event. cbn [ev_time ren].
   set (s0 := set_pend r s). set (t0 := set_pend (map (ren f) r) t).
   assert (L0 : LogsRel bs bt s0 t0) by (eapply LogsRel_same; eauto).
-  assert (H0 : IdSim bs bt s0 t0) by (split; eauto).
-  replace (clock t0) with (clock s0) by (symmetry; apply (cs_clock _ _ _ C0)).
+  assert (H0 : IdSimX X X' bs bt s0 t0) by (split; eauto).
+  replace (clock t0) with (clock s0) by (symmetry; apply (cs_clock _ _ _ _ _ C0)).
   set (s1 := if ev_time e =? clock s0 then s0 else emit (NTime (ev_time e)) s0).
   set (t1 := if ev_time e =? clock s0 then t0 else emit (NTime (ev_time e)) t0).
-  assert (H1 : IdSim bs bt s1 t1) by (unfold s1, t1; destruct (ev_time e =? clock s0); auto using emit_idsim).
+  assert (H1 : IdSimX X X' bs bt s1 t1) by (unfold s1, t1; destruct (ev_time e =? clock s0); auto using emit_idsim).
   pose proof (set_clock_idsim _ _ (ev_time e) H1) as H2.
   destruct H2 as [[g C2] L2].
   (* the renaming may be taken to be f again: no id was created *)
-  assert (C2' : CoreSim f (set_clock (ev_time e) s1) (set_clock (ev_time e) t1)).
+  assert (C2' : CoreSim X X' f (set_clock (ev_time e) s1) (set_clock (ev_time e) t1)).
   { unfold s1, t1. destruct (ev_time e =? clock s0).
     - destruct C0. constructor; ssimpl; auto.
     - destruct C0. constructor; ssimpl; auto. }
@@ -513,14 +534,14 @@ Proof.
 Qed.
 
 Lemma step_event_idsim p s t e r f :
-  CoreSim f s t -> LogsRel bs bt s t -> pend s = e :: r ->
-  IdSim bs bt (step_event p s e r) (step_event p t (ren f e) (map (ren f) r)).
+  CoreSim X X' f s t -> LogsRel bs bt s t -> pend s = e :: r ->
+  IdSimX X X' bs bt (step_event p s e r) (step_event p t (ren f e) (map (ren f) r)).
 Proof.
   intros C L E. destruct (pop_coresim f s t e r C E) as [_ C0].
   unfold step_event. cbn [ev_time ren].
   set (s0 := set_pend r s). set (t0 := set_pend (map (ren f) r) t).
   assert (L0 : LogsRel bs bt s0 t0) by (eapply LogsRel_same; eauto).
-  assert (C1 : CoreSim f (set_clock (ev_time e) (emit (NTime (ev_time e)) s0))
+  assert (C1 : CoreSim X X' f (set_clock (ev_time e) (emit (NTime (ev_time e)) s0))
                          (set_clock (ev_time e) (emit (NTime (ev_time e)) t0))).
   { destruct C0. constructor; ssimpl; auto. }
   assert (L1 : LogsRel bs bt (set_clock (ev_time e) (emit (NTime (ev_time e)) s0))
@@ -530,7 +551,7 @@ Proof.
 Qed.
 
 Lemma stop_at_bound_idsim s t :
-  IdSim bs bt s t -> SameBound s t -> IdSim bs bt (stop_at_bound s) (stop_at_bound t).
+  IdSimX X X' bs bt s t -> SameBound s t -> IdSimX X X' bs bt (stop_at_bound s) (stop_at_bound t).
 Proof.
   intros H [B I]. unfold stop_at_bound. rewrite B.
   assert (E : end_time (set_clock (bound s) t) = end_time (set_clock (bound s) s)).
@@ -556,8 +577,8 @@ Proof.
 Qed.
 
 Lemma run_loop_idsim p fuel : forall s t,
-  IdSim bs bt s t -> SameBound s t ->
-  IdSim bs bt (run_loop fuel p s) (run_loop fuel p t)
+  IdSimX X X' bs bt s t -> SameBound s t ->
+  IdSimX X X' bs bt (run_loop fuel p s) (run_loop fuel p t)
   /\ SameBound (run_loop fuel p s) (run_loop fuel p t).
 Proof.
   induction fuel as [|n IH]; intros s t H SB; cbn [run_loop]; rewrite (idsim_running _ _ H).
@@ -565,7 +586,7 @@ Proof.
   - destruct (running s); [|split; auto].
     destruct H as [[f C] L].
     destruct (pend s) as [|e r] eqn:E.
-    + rewrite (cs_pend _ _ _ C), E. cbn [map]. split; [apply stop_at_bound_idsim; auto; split; eauto|].
+    + rewrite (cs_pend _ _ _ _ _ C), E. cbn [map]. split; [apply stop_at_bound_idsim; auto; split; eauto|].
       apply stop_at_bound_samebound; auto.
     + destruct (pop_coresim f s t e r C E) as [Et _]. rewrite Et.
       assert (Bq : beyond t (ren f e) = beyond s e).
@@ -581,26 +602,26 @@ Proof.
            destruct SB. unfold SameBound; split; congruence.
 Qed.
 
-Lemma worker_ending_idsim s t : IdSim bs bt s t -> IdSim bs bt (worker_ending s) (worker_ending t).
+Lemma worker_ending_idsim s t : IdSimX X X' bs bt s t -> IdSimX X X' bs bt (worker_ending s) (worker_ending t).
 Proof.
   intros H. unfold worker_ending. rewrite (idsim_ps _ _ H). destruct (ps s); auto.
   rewrite (idsim_clock _ _ H).
   apply set_worker_idsim.
-  assert (H1 : IdSim bs bt (emit (NEndRepl (clock s)) (set_rs REnded (set_ps PEnded s)))
+  assert (H1 : IdSimX X X' bs bt (emit (NEndRepl (clock s)) (set_rs REnded (set_ps PEnded s)))
                            (emit (NEndRepl (clock s)) (set_rs REnded (set_ps PEnded t))))
     by auto using emit_idsim, set_rs_idsim, set_ps_idsim.
   apply (set_obs_idsim _ _ (ObsEnd (clock s)) H1).
 Qed.
 
 Lemma worker_run_idsim fuel p s t :
-  IdSim bs bt s t -> SameBound s t -> IdSim bs bt (worker_run fuel p s) (worker_run fuel p t).
+  IdSimX X X' bs bt s t -> SameBound s t -> IdSimX X X' bs bt (worker_run fuel p s) (worker_run fuel p t).
 Proof.
   intros H SB. unfold worker_run. rewrite (idsim_worker _ _ H). destruct (worker s); auto.
   apply worker_ending_idsim. rewrite (idsim_ps _ _ H). destruct (ps s); auto;
-  match goal with |- IdSim _ _ (set_rs RStopped (emit (NStop (clock ?b)) ?b)) _ =>
+  match goal with |- IdSimX _ _ _ _ (set_rs RStopped (emit (NStop (clock ?b)) ?b)) _ =>
     idtac end;
   rewrite (idsim_clock _ _ H);
-  (assert (Ha : IdSim bs bt (set_rs RStarted (emit (NStart (clock s)) s)) (set_rs RStarted (emit (NStart (clock s)) t)))
+  (assert (Ha : IdSimX X X' bs bt (set_rs RStarted (emit (NStart (clock s)) s)) (set_rs RStarted (emit (NStart (clock s)) t)))
      by auto using set_rs_idsim, emit_idsim);
   (assert (Sa : SameBound (set_rs RStarted (emit (NStart (clock s)) s)) (set_rs RStarted (emit (NStart (clock s)) t)))
      by exact SB);
@@ -608,14 +629,14 @@ Proof.
   rewrite (idsim_clock _ _ Hb); auto using set_rs_idsim, emit_idsim.
 Qed.
 
-Lemma start_checks_idsim s t : IdSim bs bt s t -> start_checks t = start_checks s.
+Lemma start_checks_idsim s t : IdSimX X X' bs bt s t -> start_checks t = start_checks s.
 Proof.
   intros H. unfold start_checks.
   rewrite (idsim_running _ _ H), (idsim_rep _ _ H), (idsim_rs _ _ H), (idsim_ps _ _ H),
           (idsim_clock _ _ H), (idsim_end_time _ _ H). reflexivity.
 Qed.
 
-Lemma step_checks_idsim s t : IdSim bs bt s t -> step_checks t = step_checks s.
+Lemma step_checks_idsim s t : IdSimX X X' bs bt s t -> step_checks t = step_checks s.
 Proof.
   intros H. unfold step_checks.
   rewrite (idsim_running _ _ H), (idsim_rs _ _ H), (idsim_ps _ _ H),
@@ -623,8 +644,8 @@ Proof.
 Qed.
 
 Lemma do_start_idsim fuel p s t b i :
-  IdSim bs bt s t ->
-  IdSim bs bt (fst (do_start fuel p s b i)) (fst (do_start fuel p t b i))
+  IdSimX X X' bs bt s t ->
+  IdSimX X X' bs bt (fst (do_start fuel p s b i)) (fst (do_start fuel p t b i))
   /\ snd (do_start fuel p t b i) = snd (do_start fuel p s b i).
 Proof.
   intros H. unfold do_start. rewrite (start_checks_idsim _ _ H).
@@ -636,7 +657,7 @@ Proof.
   cbn [fst snd]. split; auto.
   set (s1 := set_rs RStarting (set_incl i' (set_bound bz' s))).
   set (t1 := set_rs RStarting (set_incl i' (set_bound bz' t))).
-  assert (H1 : IdSim bs bt s1 t1) by (unfold s1, t1; auto using set_rs_idsim, set_incl_idsim, set_bound_idsim).
+  assert (H1 : IdSimX X X' bs bt s1 t1) by (unfold s1, t1; auto using set_rs_idsim, set_incl_idsim, set_bound_idsim).
   assert (S1 : SameBound s1 t1) by (split; reflexivity).
   rewrite (idsim_ps _ _ H1), (idsim_clock _ _ H1).
   apply worker_run_idsim.
@@ -645,60 +666,60 @@ Proof.
 Qed.
 
 Lemma do_step_idsim p s t :
-  IdSim bs bt s t ->
-  IdSim bs bt (fst (do_step p s)) (fst (do_step p t)) /\ snd (do_step p t) = snd (do_step p s).
+  IdSimX X X' bs bt s t ->
+  IdSimX X X' bs bt (fst (do_step p s)) (fst (do_step p t)) /\ snd (do_step p t) = snd (do_step p s).
 Proof.
   intros H. unfold do_step. rewrite (step_checks_idsim _ _ H).
   destruct (step_checks s); [|split; auto]. cbn [fst snd]. split; auto.
   rewrite (idsim_ps _ _ H), (idsim_clock _ _ H).
   set (s1 := match ps s with PInit => set_ps PStarted (emit (NStartRepl (clock s)) s) | _ => s end).
   set (t1 := match ps s with PInit => set_ps PStarted (emit (NStartRepl (clock s)) t) | _ => t end).
-  assert (H1 : IdSim bs bt s1 t1) by (unfold s1, t1; destruct (ps s); auto using set_ps_idsim, emit_idsim).
+  assert (H1 : IdSimX X X' bs bt s1 t1) by (unfold s1, t1; destruct (ps s); auto using set_ps_idsim, emit_idsim).
   rewrite (idsim_clock _ _ H1).
   set (s2 := emit (NStart (clock s1)) (set_rs RStarted s1)).
   set (t2 := emit (NStart (clock s1)) (set_rs RStarted t1)).
-  assert (H2 : IdSim bs bt s2 t2) by (unfold s2, t2; auto using set_rs_idsim, emit_idsim).
-  assert (H3 : IdSim bs bt
+  assert (H2 : IdSimX X X' bs bt s2 t2) by (unfold s2, t2; auto using set_rs_idsim, emit_idsim).
+  assert (H3 : IdSimX X X' bs bt
       (match pend s2 with [] => s2 | e :: r => if ev_time e >? end_time s2 then s2 else step_event p s2 e r end)
       (match pend t2 with [] => t2 | e :: r => if ev_time e >? end_time t2 then t2 else step_event p t2 e r end)).
   { destruct H2 as [[f C] L]. destruct (pend s2) as [|e r] eqn:E.
-    - rewrite (cs_pend _ _ _ C), E. cbn [map]. split; eauto.
+    - rewrite (cs_pend _ _ _ _ _ C), E. cbn [map]. split; eauto.
     - destruct (pop_coresim f s2 t2 e r C E) as [Et _]. rewrite Et.
-      assert (EE : end_time t2 = end_time s2) by (unfold end_time; rewrite (cs_rep _ _ _ C); reflexivity).
+      assert (EE : end_time t2 = end_time s2) by (unfold end_time; rewrite (cs_rep _ _ _ _ _ C); reflexivity).
       rewrite EE. cbn [ev_time ren]. destruct (ev_time e >? end_time s2); [split; eauto|].
       apply step_event_idsim; auto. }
   rewrite (idsim_clock _ _ H3). auto using set_rs_idsim, emit_idsim.
 Qed.
 
-Lemma do_cleanup_idsim s t : IdSim bs bt s t -> IdSim bs bt (do_cleanup s) (do_cleanup t).
+Lemma do_cleanup_idsim s t : IdSimX X X' bs bt s t -> IdSimX X X' bs bt (do_cleanup s) (do_cleanup t).
 Proof. intros H. unfold do_cleanup. auto using set_ps_idsim, set_rs_idsim, set_worker_idsim. Qed.
 
 Lemma clear_idsim s t :
-  IdSim bs bt s t -> IdSim bs bt (set_pend [] s) (set_pend [] t).
+  IdSimX X X' bs bt s t -> IdSimX X X' bs bt (set_pend [] s) (set_pend [] t).
 Proof.
   intros [[f C] L]. split; [|eapply LogsRel_same; eauto].
   exists f. eapply CoreSim_shrink; [exact C|..]; ssimpl; try lia;
-    try (apply (cs_clock _ _ _ C) || apply (cs_rs _ _ _ C) || apply (cs_ps _ _ _ C)
-         || apply (cs_strat _ _ _ C) || apply (cs_worker _ _ _ C) || apply (cs_rep _ _ _ C)); auto.
-  - apply (cs_created _ _ _ C).
+    try (apply (cs_clock _ _ _ _ _ C) || apply (cs_rs _ _ _ _ _ C) || apply (cs_ps _ _ _ _ _ C)
+         || apply (cs_strat _ _ _ _ _ C) || apply (cs_worker _ _ _ _ _ C) || apply (cs_rep _ _ _ _ _ C)); auto.
+  - apply (cs_created _ _ _ _ _ C).
   - intros a. unfold dom; ssimpl. cbn [eids map app]. intros Ha. apply in_or_app; right; exact Ha.
 Qed.
 
 Lemma forget_created_idsim s t :
-  IdSim bs bt s t -> IdSim bs bt (set_created [] s) (set_created [] t).
+  IdSimX X X' bs bt s t -> IdSimX X X' bs bt (set_created [] s) (set_created [] t).
 Proof.
   intros [[f C] L]. split; [|eapply LogsRel_same; eauto].
   exists f. eapply CoreSim_shrink; [exact C|..]; ssimpl; try lia;
-    try (apply (cs_clock _ _ _ C) || apply (cs_rs _ _ _ C) || apply (cs_ps _ _ _ C)
-         || apply (cs_strat _ _ _ C) || apply (cs_worker _ _ _ C) || apply (cs_rep _ _ _ C)); auto.
-  - apply (cs_pend _ _ _ C).
+    try (apply (cs_clock _ _ _ _ _ C) || apply (cs_rs _ _ _ _ _ C) || apply (cs_ps _ _ _ _ _ C)
+         || apply (cs_strat _ _ _ _ _ C) || apply (cs_worker _ _ _ _ _ C) || apply (cs_rep _ _ _ _ _ C)); auto.
+  - apply (cs_pend _ _ _ _ _ C).
   - intros a. unfold dom; ssimpl. cbn [eids map]. rewrite app_nil_r. intros Ha. apply in_or_app; left; exact Ha.
 Qed.
 
 (* scheduling the warm-up event *)
 Lemma warm_insert_idsim s t tm :
-  IdSim bs bt s t ->
-  IdSim bs bt (set_nid (nid s + 1) (set_pend (ins (mkEv tm 10 (nid s) HWarm 0) (pend s)) s))
+  IdSimX X X' bs bt s t ->
+  IdSimX X X' bs bt (set_nid (nid s + 1) (set_pend (ins (mkEv tm 10 (nid s) HWarm 0) (pend s)) s))
               (set_nid (nid t + 1) (set_pend (ins (mkEv tm 10 (nid t) HWarm 0) (pend t)) t)).
 Proof.
   intros [[f C] L]. split; [|eapply LogsRel_same; eauto].
@@ -726,8 +747,8 @@ Proof.
 Qed.
 
 Lemma init_tail_idsim p r s2 t2 :
-  IdSim bs bt s2 t2 ->
-  IdSim bs bt
+  IdSimX X X' bs bt s2 t2 ->
+  IdSimX X X' bs bt
     (let '(s3, failed) := exec_actions InConstruct s2 (body p 0) in
      let s4 := if failed then raise_flag s3 else s3 in
      let s5 := set_ps PInit (set_rs RInit s4) in
@@ -746,8 +767,8 @@ Proof.
   destruct (exec_actions InConstruct s2 (body p 0)) as [s3 fl].
   destruct (exec_actions InConstruct t2 (body p 0)) as [t3 fl']. cbn [fst snd] in *. subst fl'.
   set (s4 := if fl then raise_flag s3 else s3). set (t4 := if fl then raise_flag t3 else t3).
-  assert (H4 : IdSim bs bt s4 t4) by (unfold s4, t4; destruct fl; auto using raise_flag_idsim).
-  assert (H5 : IdSim bs bt (set_ps PInit (set_rs RInit s4)) (set_ps PInit (set_rs RInit t4)))
+  assert (H4 : IdSimX X X' bs bt s4 t4) by (unfold s4, t4; destruct fl; auto using raise_flag_idsim).
+  assert (H5 : IdSimX X X' bs bt (set_ps PInit (set_rs RInit s4)) (set_ps PInit (set_rs RInit t4)))
     by auto using set_ps_idsim, set_rs_idsim.
   cbv zeta. rewrite (idsim_clock _ _ H5).
   destruct (r_warm r <? clock (set_ps PInit (set_rs RInit s4))); auto using raise_flag_idsim.
@@ -755,7 +776,7 @@ Proof.
 Qed.
 
 Lemma init_body_idsim p r s t :
-  IdSim bs bt s t -> IdSim bs bt (init_body p s r) (init_body p t r).
+  IdSimX X X' bs bt s t -> IdSimX X X' bs bt (init_body p s r) (init_body p t r).
 Proof.
   intros H. unfold init_body.
   apply init_tail_idsim.
@@ -765,16 +786,16 @@ Proof.
 Qed.
 
 Lemma do_init_idsim p r s t :
-  IdSim bs bt s t ->
-  IdSim bs bt (fst (do_init p s r)) (fst (do_init p t r)) /\ snd (do_init p t r) = snd (do_init p s r).
+  IdSimX X X' bs bt s t ->
+  IdSimX X X' bs bt (fst (do_init p s r)) (fst (do_init p t r)) /\ snd (do_init p t r) = snd (do_init p s r).
 Proof.
   intros H. rewrite !do_init_eq, (idsim_running _ _ H).
   destruct (running s); cbn [fst snd]; split; auto using init_body_idsim.
 Qed.
 
 Lemma do_end_repl_idsim fuel p s t :
-  IdSim bs bt s t ->
-  IdSim bs bt (fst (do_end_repl fuel p s)) (fst (do_end_repl fuel p t))
+  IdSimX X X' bs bt s t ->
+  IdSimX X X' bs bt (fst (do_end_repl fuel p s)) (fst (do_end_repl fuel p t))
   /\ snd (do_end_repl fuel p t) = snd (do_end_repl fuel p s).
 Proof.
   intros H. unfold do_end_repl. rewrite (idsim_ps _ _ H).
@@ -782,17 +803,17 @@ Proof.
   rewrite (idsim_clock _ _ H), (idsim_end_time _ _ H).
   set (s1 := if clock s <? end_time s then set_clock (end_time s) s else s).
   set (t1 := if clock s <? end_time s then set_clock (end_time s) t else t).
-  assert (H1 : IdSim bs bt s1 t1) by (unfold s1, t1; destruct (clock s <? end_time s); auto using set_clock_idsim).
+  assert (H1 : IdSimX X X' bs bt s1 t1) by (unfold s1, t1; destruct (clock s <? end_time s); auto using set_clock_idsim).
   set (s2 := set_pend [] (set_ps PEnding s1)). set (t2 := set_pend [] (set_ps PEnding t1)).
-  assert (H2 : IdSim bs bt s2 t2) by (unfold s2, t2; auto using clear_idsim, set_ps_idsim).
+  assert (H2 : IdSimX X X' bs bt s2 t2) by (unfold s2, t2; auto using clear_idsim, set_ps_idsim).
   (* the replication is ending: the worker does not enter the run loop, the bound is not read *)
   unfold worker_run. rewrite (idsim_worker _ _ H2). destruct (worker s2); auto.
   unfold s2, t2; ssimpl. apply worker_ending_idsim. exact H2.
 Qed.
 
 Theorem do_cmd_idsim fuel p c s t :
-  IdSim bs bt s t ->
-  IdSim bs bt (fst (do_cmd fuel p s c)) (fst (do_cmd fuel p t c))
+  IdSimX X X' bs bt s t ->
+  IdSimX X X' bs bt (fst (do_cmd fuel p s c)) (fst (do_cmd fuel p t c))
   /\ snd (do_cmd fuel p t c) = snd (do_cmd fuel p s c).
 Proof.
   intros H. destruct c; cbn [do_cmd].
@@ -807,15 +828,15 @@ Proof.
   - cbn [fst snd]. split; auto using do_cleanup_idsim.
 Qed.
 
-Lemma snap_idsim s t res : IdSim bs bt s t ->
+Lemma snap_idsim s t res : IdSimX X X' bs bt s t ->
   mkSnap res (rs t) (ps t) (clock t) (length (pend t)) = mkSnap res (rs s) (ps s) (clock s) (length (pend s)).
 Proof.
   intros H. rewrite (idsim_rs _ _ H), (idsim_ps _ _ H), (idsim_clock _ _ H), (idsim_npend _ _ H). reflexivity.
 Qed.
 
 Theorem run_cmds_idsim fuel p cs : forall s t,
-  IdSim bs bt s t ->
-  IdSim bs bt (fst (run_cmds fuel p s cs)) (fst (run_cmds fuel p t cs))
+  IdSimX X X' bs bt s t ->
+  IdSimX X X' bs bt (fst (run_cmds fuel p s cs)) (fst (run_cmds fuel p t cs))
   /\ snd (run_cmds fuel p t cs) = snd (run_cmds fuel p s cs).
 Proof.
   induction cs as [|c r IH]; intros s t H; cbn [run_cmds]; [split; auto|].
@@ -826,24 +847,74 @@ Proof.
   split; auto. rewrite E2, (snap_idsim _ _ r1 H1). reflexivity.
 Qed.
 
+(* a SimEvent object built earlier (its id is one of the extra comparable ids X,
+   the j-th) is handed to schedule_event(event): it joins the pending and the
+   referenced events with the id it has *)
+Lemma CoreSim_sub f s t s' t' :
+  CoreSim X X' f s t ->
+  clock t' = clock s' -> rs t' = rs s' -> ps t' = ps s' -> strat t' = strat s' ->
+  worker t' = worker s' -> rep t' = rep s' ->
+  pend t' = map (ren f) (pend s') -> created t' = map (ren f) (created s') ->
+  (forall a, In a (domx X s') -> In a (domx X s)) ->
+  nid s <= nid s' -> nid t <= nid t' ->
+  CoreSim X X' f s' t'.
+Proof.
+  intros [A1 A2 A3 A4 A5 A6 A7 A8 Ax Lo Hi Mo] Hc Hr Hp Hs Hw Hre Pp Pc Hd Hn Hn'. constructor; auto.
+  - intros a Ha. specialize (Lo a (Hd a Ha)). lia.
+  - intros a Ha. specialize (Hi a (Hd a Ha)). lia.
+Qed.
+
+Definition put_old (e : ev) (s : sim) : sim :=
+  set_created (created s ++ [e]) (set_pend (ins e (pend s)) s).
+
+Lemma put_old_idsim s t tm prio h j p p' :
+  nth_error X j = Some p -> nth_error X' j = Some p' ->
+  IdSimX X X' bs bt s t ->
+  IdSimX X X' bs bt (put_old (mkEv tm prio p (HUser h) (length (created s))) s)
+                    (put_old (mkEv tm prio p' (HUser h) (length (created t))) t).
+Proof.
+  intros Hp Hp' [[f C] L]. split; [|eapply LogsRel_same; eauto].
+  exists f.
+  assert (Ef : p' = f p).
+  { pose proof (cs_x _ _ _ _ _ C) as Q. rewrite <- Q, nth_error_map, Hp in Hp'. cbn in Hp'. congruence. }
+  assert (Ip : In p (domx X s)) by (apply dom_x; eapply nth_error_In; eauto).
+  replace (length (created t)) with (length (created s))
+    by (rewrite (cs_created _ _ _ _ _ C), map_length; reflexivity).
+  set (e := mkEv tm prio p (HUser h) (length (created s))).
+  assert (Ee : mkEv tm prio p' (HUser h) (length (created s)) = ren f e) by (rewrite Ef; reflexivity).
+  rewrite Ee. unfold put_old.
+  eapply CoreSim_sub; [exact C|..]; ssimpl; try lia;
+    try (apply (cs_clock _ _ _ _ _ C) || apply (cs_rs _ _ _ _ _ C) || apply (cs_ps _ _ _ _ _ C)
+         || apply (cs_strat _ _ _ _ _ C) || apply (cs_worker _ _ _ _ _ C) || apply (cs_rep _ _ _ _ _ C)).
+  - rewrite (cs_pend _ _ _ _ _ C). apply ins_ren. intros x Hx. cbn [ev_id e].
+    eapply CoreSim_ordpres; eauto. apply dom_pend; auto.
+  - rewrite map_app, (cs_created _ _ _ _ _ C). reflexivity.
+  - intros a Ha. apply domx_cases in Ha. destruct Ha as [Ha|Ha]; [|apply dom_x; exact Ha].
+    unfold dom in Ha; ssimpl. rewrite in_app_iff in Ha. destruct Ha as [Ha|Ha].
+    + apply in_eids_inv in Ha. destruct Ha as [x [Hx <-]]. apply ins_In in Hx.
+      destruct Hx as [->|Hx]; [exact Ip|apply dom_pend; auto].
+    + unfold eids in Ha. rewrite map_app, in_app_iff in Ha. destruct Ha as [Ha|[<-|[]]]; [|exact Ip].
+      apply in_eids_inv in Ha. destruct Ha as [x [Hx <-]]. apply dom_created; auto.
+Qed.
+
 (* ids consumed elsewhere do not matter *)
-Lemma burn_idsim n m s t : IdSim bs bt s t -> IdSim bs bt (burn n s) (burn m t).
+Lemma burn_idsim n m s t : IdSimX X X' bs bt s t -> IdSimX X X' bs bt (burn n s) (burn m t).
 Proof.
   intros [[f C] L]. split; [|eapply LogsRel_same; eauto].
   exists f. unfold burn. eapply CoreSim_shrink; [exact C|..]; ssimpl; try lia;
-    try (apply (cs_clock _ _ _ C) || apply (cs_rs _ _ _ C) || apply (cs_ps _ _ _ C)
-         || apply (cs_strat _ _ _ C) || apply (cs_worker _ _ _ C) || apply (cs_rep _ _ _ C)); auto.
-  - apply (cs_pend _ _ _ C).
-  - apply (cs_created _ _ _ C).
+    try (apply (cs_clock _ _ _ _ _ C) || apply (cs_rs _ _ _ _ _ C) || apply (cs_ps _ _ _ _ _ C)
+         || apply (cs_strat _ _ _ _ _ C) || apply (cs_worker _ _ _ _ _ C) || apply (cs_rep _ _ _ _ _ C)); auto.
+  - apply (cs_pend _ _ _ _ _ C).
+  - apply (cs_created _ _ _ _ _ C).
 Qed.
 
 Theorem run_cmds_burn_idsim fuel p cs : forall s t,
-  IdSim bs bt s t ->
-  IdSim bs bt (fst (run_cmds_burn fuel p s cs)) (fst (run_cmds fuel p t (map snd cs)))
+  IdSimX X X' bs bt s t ->
+  IdSimX X X' bs bt (fst (run_cmds_burn fuel p s cs)) (fst (run_cmds fuel p t (map snd cs)))
   /\ snd (run_cmds fuel p t (map snd cs)) = snd (run_cmds_burn fuel p s cs).
 Proof.
   induction cs as [|[n c] r IH]; intros s t H; cbn [run_cmds_burn run_cmds map snd]; [split; auto|].
-  assert (Hb : IdSim bs bt (burn n s) t).
+  assert (Hb : IdSimX X X' bs bt (burn n s) t).
   { pose proof (burn_idsim n 0 s t H) as Q. unfold burn at 2 in Q. cbn [Z.max] in Q.
     rewrite Z.add_0_r in Q. replace (set_nid (nid t) t) with t in Q; auto. destruct t; reflexivity. }
   destruct (do_cmd_idsim fuel p c _ _ Hb) as [H1 E1].
@@ -886,19 +957,35 @@ Proof.
   rewrite !map_map. cbn. f_equal.
 Qed.
 
+Definition MonoOnX (X : list Z) (f : Z -> Z) (n' : Z) (s : sim) : Prop :=
+  (forall a, In a (domx X s) -> f a < n')
+  /\ (forall a b, In a (domx X s) -> In b (domx X s) -> a < b -> f a < f b).
+
 Definition MonoOn (f : Z -> Z) (n' : Z) (s : sim) : Prop :=
   (forall a, In a (dom s) -> f a < n') /\ (forall a b, In a (dom s) -> In b (dom s) -> a < b -> f a < f b).
 
-Lemma ren_sim_idsim f n' s :
-  (forall a, In a (dom s) -> a < nid s) -> MonoOn f n' s ->
-  IdSim (logs_of s) (logs_of s) s (ren_sim f n' s).
+Lemma domx_nil s : domx [] s = dom s.
+Proof. unfold domx. apply app_nil_r. Qed.
+
+Lemma ren_sim_idsimx X f n' s :
+  (forall a, In a (domx X s) -> a < nid s) -> MonoOnX X f n' s ->
+  IdSimX X (map f X) (logs_of s) (logs_of s) s (ren_sim f n' s).
 Proof.
   intros Lo [Hi Mo]. split.
   - exists f. constructor; auto.
   - exists no_logs. rewrite logs_of_ren_sim. split; destruct (logs_of s); reflexivity.
 Qed.
 
-Lemma idsim_logs_eq b s t : IdSim b b s t -> logs_of t = logs_of s.
+Lemma ren_sim_idsim f n' s :
+  (forall a, In a (dom s) -> a < nid s) -> MonoOn f n' s ->
+  IdSim (logs_of s) (logs_of s) s (ren_sim f n' s).
+Proof.
+  intros Lo [Hi Mo]. apply (ren_sim_idsimx [] f n' s).
+  - rewrite domx_nil. exact Lo.
+  - split; rewrite domx_nil; auto.
+Qed.
+
+Lemma idsim_logs_eq X X' b s t : IdSimX X X' b b s t -> logs_of t = logs_of s.
 Proof. intros [_ [n [A B]]]. congruence. Qed.
 
 (* Strictly monotone renamings of the event ids (and any id counter above
@@ -911,7 +998,7 @@ Theorem run_id_monotone_invariant f n' s fuel p cs :
   snd rb = snd ra /\ logs_of (fst rb) = logs_of (fst ra).
 Proof.
   intros Lo M ra rb.
-  destruct (run_cmds_idsim _ _ fuel p cs _ _ (ren_sim_idsim f n' s Lo M)) as [H E].
+  destruct (run_cmds_idsim _ _ _ _ fuel p cs _ _ (ren_sim_idsim f n' s Lo M)) as [H E].
   split; auto. eapply idsim_logs_eq; eauto.
 Qed.
 
@@ -923,7 +1010,7 @@ Theorem run_id_gaps_invariant f n' s fuel p cs :
   snd rb = snd ra /\ logs_of (fst rb) = logs_of (fst ra).
 Proof.
   intros Lo M ra rb.
-  destruct (run_cmds_burn_idsim _ _ fuel p cs _ _ (ren_sim_idsim f n' s Lo M)) as [H E].
+  destruct (run_cmds_burn_idsim _ _ _ _ fuel p cs _ _ (ren_sim_idsim f n' s Lo M)) as [H E].
   split; auto. eapply idsim_logs_eq; eauto.
 Qed.
 
@@ -1002,6 +1089,30 @@ Proof.
     + reflexivity.
 Qed.
 
+(* the same with SimEvent objects built earlier: their ids X in the old process
+   state and X' next to the brand-new simulator (whose counter the model puts at
+   0) need only be in the same order and below the respective counters *)
+Lemma init_pre_idsimx X X' g s r :
+  rs s = RNotInit -> ps s = PNotInit ->
+  map g X = X' -> (forall a b, In a X -> In b X -> a < b -> g a < g b) ->
+  (forall a, In a X -> a < nid s) -> (forall a, In a X -> g a < 0) ->
+  IdSimX X X' (logs_of s) no_logs
+    (set_created [] (set_clock (r_start r) (set_rep (Some r) (set_worker WAlive
+        (match worker (set_pend [] s) with WNone => set_pend [] s | _ => do_cleanup (set_pend [] s) end)))))
+    (set_created [] (set_clock (r_start r) (set_rep (Some r) (set_worker WAlive
+        (set_pend [] (init_sim (strat s))))))).
+Proof.
+  intros R P Eg Mo Lo Hi. split.
+  - exists g.
+    replace (worker (set_pend [] s)) with (worker s) by reflexivity.
+    destruct (worker s); constructor; unfold domx, dom, do_cleanup; ssimpl; rewrite ?R, ?P; try reflexivity;
+      cbn [eids map app In]; auto.
+  - exists no_logs. split.
+    + rewrite lapp_nil_l. replace (worker (set_pend [] s)) with (worker s) by reflexivity.
+      destruct (worker s); reflexivity.
+    + reflexivity.
+Qed.
+
 Lemma init_body_fresh_idsim p r s :
   IdSim (logs_of s) no_logs (init_body p s r) (init_body p (init_sim (strat s)) r).
 Proof.
@@ -1037,14 +1148,14 @@ Proof.
   intros R. cbv zeta. rewrite !do_init_eq, R.
   replace (running (init_sim (strat s))) with false by reflexivity. cbn [fst snd].
   split; auto.
-  destruct (run_cmds_idsim _ _ fuel p cs _ _ (init_body_fresh_idsim p r s)) as [[_ [n [A B]]] E].
+  destruct (run_cmds_idsim _ _ _ _ fuel p cs _ _ (init_body_fresh_idsim p r s)) as [[_ [n [A B]]] E].
   split; [symmetry; exact E|].
   rewrite lapp_no_logs in B. rewrite B. exact A.
 Qed.
 
 (* the same with a different model program per later command *)
-Lemma run_hist_idsim bs bt fuel h : forall s t,
-  IdSim bs bt s t -> IdSim bs bt (run_hist fuel s h) (run_hist fuel t h).
+Lemma run_hist_idsim X X' bs bt fuel h : forall s t,
+  IdSimX X X' bs bt s t -> IdSimX X X' bs bt (run_hist fuel s h) (run_hist fuel t h).
 Proof.
   induction h as [|[p c] r IH]; intros s t H; cbn [run_hist]; auto.
   apply IH. apply do_cmd_idsim. exact H.
@@ -1058,7 +1169,7 @@ Theorem reinit_fresh_models_taking_turns p r s fuel h :
 Proof.
   intros R a b. unfold a, b. rewrite !do_init_eq, R.
   replace (running (init_sim (strat s))) with false by reflexivity. cbn [fst].
-  destruct (run_hist_idsim _ _ fuel h _ _ (init_body_fresh_idsim p r s)) as [_ [n [A B]]].
+  destruct (run_hist_idsim _ _ _ _ fuel h _ _ (init_body_fresh_idsim p r s)) as [_ [n [A B]]].
   rewrite lapp_no_logs in B. rewrite B. exact A.
 Qed.
 
@@ -1317,7 +1428,7 @@ Lemma x_init_xrel base N xp r x y :
   NoDup (keys_of (xp_stats xp)) -> XRel base N x y ->
   XRel base N (fst (x_init true xp x r)) (fst (x_init true xp y r)).
 Proof.
-  intros ND [S M]. unfold x_init. rewrite (idsim_running _ _ _ _ S).
+  intros ND [S M]. unfold x_init. rewrite (idsim_running _ _ _ _ _ _ S).
   destruct (running (x_sim x)); [constructor; auto|].
   pose proof (idsim_obs_len _ _ _ S) as EL.
   pose proof (cut_all_mrel _ N _ _ _ _ EL M) as M0.
@@ -1358,8 +1469,8 @@ Proof.
     rewrite skipn_all2 by lia. reflexivity.
 Qed.
 
-Lemma feed_shift base s t o :
-  IdSim base no_logs s t -> feed s (shift_obj (length (l_ob base)) o) = feed t o.
+Lemma feed_shiftx X X' base s t o :
+  IdSimX X X' base no_logs s t -> feed s (shift_obj (length (l_ob base)) o) = feed t o.
 Proof.
   intros [_ [n [A B]]]. rewrite lapp_no_logs in B.
   assert (Os : obs s = l_ob n ++ l_ob base) by (change (obs s) with (l_ob (logs_of s)); rewrite A; reflexivity).
@@ -1368,6 +1479,10 @@ Proof.
   rewrite <- (rev_length (l_ob base)). rewrite segment_shift.
   apply filter_ext. intros q. destruct q; reflexivity.
 Qed.
+
+Lemma feed_shift base s t o :
+  IdSim base no_logs s t -> feed s (shift_obj (length (l_ob base)) o) = feed t o.
+Proof. apply feed_shiftx. Qed.
 
 Lemma nth_error_skipn {A} N i (l : list A) : nth_error l (i + N) = nth_error (skipn N l) i.
 Proof.
@@ -1515,10 +1630,12 @@ Proof.
               Inv s' /\ exists n, obs s' = n ++ obs (x_sim x)).
   { intros s' [c' ->]. split; [apply do_cmd_inv; auto|].
     assert (S : IdSim (logs_of (x_sim x)) (logs_of (x_sim x)) (x_sim x) (x_sim x)).
-    { split; [|apply LogsRel_start]. exists (fun a => a). constructor; auto using Inv_dom_lt.
+    { split; [|apply LogsRel_start]. exists (fun a => a). constructor; auto.
       - rewrite map_ext with (g := fun e => e); [rewrite map_id; reflexivity|intros []; reflexivity].
-      - rewrite map_ext with (g := fun e => e); [rewrite map_id; reflexivity|intros []; reflexivity]. }
-    destruct (do_cmd_idsim _ _ fuel (xp_prog xp) c' _ _ S) as [[_ [n [A _]]] _].
+      - rewrite map_ext with (g := fun e => e); [rewrite map_id; reflexivity|intros []; reflexivity].
+      - rewrite domx_nil. apply Inv_dom_lt; auto.
+      - rewrite domx_nil. apply Inv_dom_lt; auto. }
+    destruct (do_cmd_idsim _ _ _ _ fuel (xp_prog xp) c' _ _ S) as [[_ [n [A _]]] _].
     exists (l_ob n). change (obs (fst (do_cmd fuel (xp_prog xp) (x_sim x) c')))
       with (l_ob (logs_of (fst (do_cmd fuel (xp_prog xp) (x_sim x) c')))). rewrite A. reflexivity. }
   destruct c; cbn [x_cmd x_sim]; try (apply G; eexists; reflexivity).
